@@ -460,6 +460,20 @@ def panel_configs_structured(verif_seed):
             out.append({"via": "dispatch", "what": "diag", "name": name, "recipe": rec, "k": 0, "rand": rand, "max_iters": 1})
         out.append({"via": "dispatch", "what": "trace", "name": name, "recipe": rec, "k": 0, "rand": g.choice(["normal", "rademacher"]),
                     "max_iters": 1})
+    # off-diagonals through the rules that accept them (sums, scalar multiples incl. complex scalars, negation, products,
+    # transposes and adjoints -- where the sign of the offset flips): a rule that refuses an offset is skipped
+    def Gc(n):
+        return {"k": "generic", "n": n, "dtype": "c16", "seed": g.randrange(1 << 20), "sym": "gen"}
+
+    for name, rec in [("sum", {"k": "sum", "args": [G(4), G(4)]}), ("smul", {"k": "smul", "c": -1.5, "of": G(4)}),
+                      ("smul-complex", {"k": "smul", "c": [0.5, 1.0], "of": Gc(4)}), ("neg", {"k": "neg", "of": G(4)}),
+                      ("product", {"k": "product", "args": [G(4), G(4)]}), ("transpose", {"k": "transpose_cls", "of": G(4)}),
+                      ("adjoint-complex", {"k": "adjoint_cls", "of": Gc(4)}), ("T-complex", {"k": "T", "of": Gc(4)}),
+                      ("H-of-sum-complex", {"k": "H", "of": {"k": "sum", "args": [Gc(3), Gc(3)]}}),
+                      ("sum-dense-generic", {"k": "sum", "args": [{"k": "dense", "n": 4, "seed": g.randrange(1 << 20), "sym": "gen"}, G(4)]})]:
+        for kk in (1, -1, 2):
+            out.append({"via": "dispatch", "what": "diag", "name": name + "/k=%d" % kk, "recipe": rec, "k": kk,
+                        "rand": g.choice(["normal", "rademacher"]), "max_iters": 1})
     for name, rec in structured(True):  # diagonal operators: exact with Rademacher probes
         out.append({"via": "dispatch", "what": "diag", "exact": True, "name": name, "recipe": rec, "k": 0, "rand": "rademacher",
                     "max_iters": g.choice([1, 2])})
